@@ -34,7 +34,7 @@ func ptr() resource.Metadata {
 // actorOp: one operation of another party on the same resource.
 func actorOp(ctx context.Context, st state.State, nm names) {
 	owner := nm.owner
-	switch verif.Choose("actorOp", 7) {
+	switch verif.Choose("actorOp", 8) {
 	case 0:
 		st.AddFinalizer(ctx, ptr(), nm.finA) //nolint:errcheck
 	case 1:
@@ -52,6 +52,11 @@ func actorOp(ctx context.Context, st state.State, nm names) {
 		}
 	case 6:
 		st.AddFinalizer(ctx, ptr(), nm.finB) //nolint:errcheck
+	case 7:
+		// replace: destroy and re-create back to back (a new incarnation of the resource)
+		if st.Destroy(ctx, ptr(), state.WithDestroyOwner(owner)) == nil {
+			st.Create(ctx, tres.NewA(tres.NS, id, "again"), state.WithCreateOwner(owner)) //nolint:errcheck
+		}
 	}
 }
 
